@@ -6,6 +6,7 @@ import random
 
 from hypothesis import strategies as st
 
+from .. import lib
 from ..gen import docs as D
 from ..gen import queries as Q
 from ..gen.filters import FilterGen
@@ -80,7 +81,13 @@ def judge(stats: Stats, text, doc, origin):
         try:
             node = walk(doc, parts)
         except LookupError:
-            stats.excluded["parts-do-not-walk (C03)"] += 1
+            stats.fail("location:does-not-exist", dict(case, parts=list(parts)), "the match of %r with value %s reports the location %r, which %s does not have" % (
+                text, short(m.obj, 80), parts, short(doc, 160)))
+            continue
+        if not lib.same_node(m.obj, node):
+            # "test with the matched value passes ... at exactly that location": the location must hold the matched value
+            stats.fail("location:holds-another-node", dict(case, parts=list(parts)), "the match of %r with value %s reports the location %r, which holds %s in %s" % (
+                text, short(m.obj, 80), parts, short(node, 80), short(doc, 160)))
             continue
         try:
             ptr = m.pointer()
